@@ -50,3 +50,484 @@ def call_check():
             print('REPLAY: VIOLATION-CONFIRMED')
             return
     print('REPLAY: not reproduced')
+
+
+# ---- operator methods and protocol fall-backs (contracts/C20_ops.py) ---------------------------------------------------
+
+def _expect_raise(what, f, exc=TypeError):
+    try:
+        r = f()
+    except exc:
+        return True
+    except Exception as e:
+        print('%s raised %s instead of %s' % (what, type(e).__name__, exc.__name__))
+        return False
+    print('%s returned %r (type %s) instead of raising %s' % (what, r, type(r).__name__, exc.__name__))
+    return False
+
+
+def fallback_check():
+    """Unregistered numpy functions / ufunc methods on a Quantity must raise; registered ones keep inputs and kwargs."""
+    import numpy
+    from nutils import SI, function
+    q = SI.Length.wrap(numpy.array([1., 2., 3.]))
+    t = SI.Time.wrap(numpy.array([1., 2., 4.]))
+    ok = True
+    ok &= _expect_raise('numpy.sin(q) [unregistered ufunc]', lambda: numpy.sin(q))
+    ok &= _expect_raise('numpy.exp(q) [unregistered ufunc]', lambda: numpy.exp(q))
+    ok &= _expect_raise('numpy.add.reduce(q) [ufunc method other than __call__]', lambda: numpy.add.reduce(q))
+    ok &= _expect_raise('numpy.multiply.outer(q, q)', lambda: numpy.multiply.outer(q, q))
+    ok &= _expect_raise('numpy.cumsum(q) [unregistered array function]', lambda: numpy.cumsum(q))
+    ok &= _expect_raise('numpy.sort(q) [unregistered array function]', lambda: numpy.sort(q))
+    try:
+        r = numpy.add(q, q)
+        if type(r) != SI.Length or r.unwrap().tolist() != [2., 4., 6.]:
+            print('numpy.add(q, q) =', r)
+            ok = False
+        r = numpy.multiply(q, t)
+        if type(r) != SI.Length * SI.Time:
+            print('numpy.multiply(q, t) has type', type(r).__name__)
+            ok = False
+        m = SI.Length.wrap(numpy.arange(6.).reshape(2, 3))
+        r = numpy.sum(m, axis=0)
+        if type(r) != SI.Length or r.unwrap().tolist() != [3., 5., 7.]:
+            print('numpy.sum(m, axis=0) =', r, '(keyword arguments lost?)')
+            ok = False
+        r = numpy.add(q, q, where=numpy.array([True, False, True]), out=numpy.zeros(3))
+        if type(r) != SI.Length or r.unwrap().tolist() != [2., 0., 6.]:
+            print('numpy.add(q, q, where=..., out=...) =', r, '(keyword arguments lost?)')
+            ok = False
+        from nutils import mesh
+        dom, geom = mesh.unitsquare(2, 'square')
+        r = function.mean(SI.Length.wrap(geom[0]))  # @nutils_dispatch but unregistered: the original runs on the still-wrapped quantity
+        if type(r) != SI.Length:
+            print('function.mean(length) has type', type(r).__name__)
+            ok = False
+        r = function.grad(SI.Mass.wrap(geom[0]), SI.Length.wrap(geom))
+        if type(r) != SI.Mass / SI.Length:
+            print('function.grad(mass, length) has type', type(r).__name__)
+            ok = False
+    except Exception as e:
+        print('a registered function failed: %s: %s' % (type(e).__name__, e))
+        ok = False
+    print('REPLAY: not reproduced' if ok else 'REPLAY: VIOLATION-CONFIRMED a numpy/nutils function on a Quantity is not routed through the registered dimension rule')
+
+
+def operators_check():
+    """Every operator of Quantity follows the rule of the same operator; DimensionError only becomes TypeError."""
+    import operator
+    from nutils import SI
+    L, T = SI.Length.wrap(6.), SI.Time.wrap(2.)
+    ok = True
+
+    def same(what, got, typ, val):
+        nonlocal ok
+        if type(got) != typ or (got.unwrap() if isinstance(got, SI.Quantity) else got) != val:
+            print('%s = %r of type %s, expected %r of type %s' % (what, got, type(got).__name__, val, typ.__name__))
+            ok = False
+    try:
+        same('L+L', L + L, SI.Length, 12.)
+        same('L-L/3', L - L / 3, SI.Length, 4.)
+        same('L*T', L * T, SI.Length * SI.Time, 12.)
+        same('2*L', 2 * L, SI.Length, 12.)
+        same('L*2', L * 2, SI.Length, 12.)
+        same('L/T', L / T, SI.Length / SI.Time, 3.)
+        same('12/L', 12 / L, SI.Length**-1, 2.)
+        same('L**2', L**2, SI.Length**2, 36.)
+        same('L%T-like: L%L', L % SI.Length.wrap(4.), SI.Length, 2.)
+        same('-L', -L, SI.Length, -6.)
+        same('+L', +L, SI.Length, 6.)
+        same('abs(-L)', abs(-L), SI.Length, 6.)
+        same('L<2L', L < 2 * L, bool, True)
+        same('L<=L', L <= L, bool, True)
+        same('L>2L', L > 2 * L, bool, False)
+        same('L>=2L', L >= 2 * L, bool, False)
+        same('L>=L', L >= L, bool, True)
+        same('L>L', L > L, bool, False)
+        same('L<L', L < L, bool, False)
+        same('L==L', L == L, bool, True)
+        same('L!=L', L != L, bool, False)
+        import numpy
+        A = SI.Length.wrap(numpy.array([1., 2.]))
+        same('A@A', A @ A, SI.Length**2, 5.)
+        same('A[1]', A[1], SI.Length, 2.)
+        B = SI.Length.wrap(numpy.array([1., 2.]))
+        B[0] = SI.Length.wrap(5.)
+        same('B[0] after B[0]=5m', B[0], SI.Length, 5.)
+        same('[1,2]@A', numpy.array([1., 2.]) @ A if False else A.__rmatmul__(numpy.array([1., 2.])), SI.Length, 5.)
+        same('L.__rsub__(4L)', L.__rsub__(4 * L), SI.Length, 18.)
+        same('L.__radd__(L)', L.__radd__(L), SI.Length, 12.)
+        same('L.__rmod__(10m)', SI.Length.wrap(4.).__rmod__(SI.Length.wrap(10.)), SI.Length, 2.)
+        same('T.__rtruediv__(L)', T.__rtruediv__(L), SI.Length / SI.Time, 3.)
+    except Exception as e:
+        print('an operator failed: %s: %s' % (type(e).__name__, e))
+        ok = False
+    ok &= _expect_raise('L+T', lambda: L + T)
+    ok &= _expect_raise('L-T', lambda: L - T)
+    ok &= _expect_raise('L<T', lambda: L < T)
+    ok &= _expect_raise('L+1', lambda: L + 1)
+    ok &= _expect_raise('1-L', lambda: 1 - L)
+    ok &= _expect_raise('L%T', lambda: L % T)
+
+    def boom(*a):
+        raise ValueError('not a dimension error')
+    ok &= _expect_raise('_try_or_noimp with a ValueError', lambda: SI._try_or_noimp(L, boom, T), ValueError)
+    if SI._reverse(1, lambda a, b: (a, b), 2) != (2, 1):
+        print('_reverse(self, func, arg) does not call func(arg, self)')
+        ok = False
+    print('REPLAY: not reproduced' if ok else 'REPLAY: VIOLATION-CONFIRMED an operator of Quantity does not follow the dimension rule of that operator')
+
+
+def simple_check():
+    import numpy
+    from nutils import SI
+    ok = True
+    q = SI.Length.wrap(numpy.array([3., 4.]))
+    if len(q) != 2:
+        print('len(q) =', len(q))
+        ok = False
+    items = list(q)
+    if [type(x) for x in items] != [SI.Length, SI.Length] or [x.unwrap() for x in items] != [3., 4.]:
+        print('list(q) =', items)
+        ok = False
+    if bool(SI.Length.wrap(0.)) or not bool(SI.Length.wrap(2.)):
+        print('bool(0m), bool(2m) =', bool(SI.Length.wrap(0.)), bool(SI.Length.wrap(2.)))
+        ok = False
+    print('REPLAY: not reproduced' if ok else 'REPLAY: VIOLATION-CONFIRMED __bool__/__len__/__iter__ do not act on the wrapped value in the own dimension')
+
+
+def truediv_check():
+    from nutils import SI
+    ok = True
+    L = SI.Length.wrap(6.)
+    try:
+        r = L / 'cm'
+        if type(r) != float or abs(r - 600.) > 1e-9:
+            print("6m / 'cm' =", repr(r))
+            ok = False
+        r = L / SI.Time.wrap(2.)
+        if type(r) != SI.Length / SI.Time or r.unwrap() != 3.:
+            print('6m / 2s =', repr(r))
+            ok = False
+    except Exception as e:
+        print('division failed: %s: %s' % (type(e).__name__, e))
+        ok = False
+    ok &= _expect_raise("6m / 's'", lambda: L / 's')
+    ok &= _expect_raise("6m / '5' (a bare number is not a length)", lambda: L / '5')
+    print('REPLAY: not reproduced' if ok else "REPLAY: VIOLATION-CONFIRMED q / 'unit' does not give the value in that unit of the quantity's own dimension")
+
+
+# ---- dimension names and unit strings (contracts/C20_strings.py) --------------------------------------------------------
+
+def _fractions():
+    from fractions import Fraction as F
+    return [F(1), F(-1), F(2), F(-3), F(1, 2), F(-1, 2), F(3, 2), F(-5, 3), F(12), F(1, 10), F(11, 10)]
+
+
+def names_check():
+    """from_powers: canonical, decodable names; create: only decodable base names."""
+    import itertools, pickle
+    from fractions import Fraction as F
+    from nutils import SI
+    D = SI.Dimension
+    bad = []
+    bases = ['Xa', 'Xb', 'Xc_d', 'X1e']
+    seen = {}
+    for n in (0, 1, 2, 3):
+        for names in itertools.combinations(bases, n):
+            for powers in itertools.product(_fractions()[:7 if n == 3 else 11], repeat=n):
+                m = dict(zip(names, powers))
+                try:
+                    c = D.from_powers(m)
+                    for perm in itertools.permutations(list(m.items())):
+                        if D.from_powers(dict(perm)) is not c:
+                            bad.append('from_powers(%r) depends on the insertion order' % (m,))
+                    key = tuple(sorted(m.items()))
+                    if seen.setdefault(c.__name__, key) != key:
+                        bad.append('power maps %r and %r share the name %s' % (dict(seen[c.__name__]), m, c.__name__))
+                    back = getattr(SI.Quantity, c.__name__)
+                    if back is not c:
+                        bad.append('getattr(Quantity, %r) is %s, not the class of %r' % (c.__name__, back.__name__, m))
+                    if (c**F(1, 1) is not c) or ((c * c) / c is not c):
+                        bad.append('algebra on %s does not return the cached class' % c.__name__)
+                    if n and pickle.loads(pickle.dumps(c.wrap(1.5))).__class__ is not c:
+                        bad.append('pickle round trip of a %s changes the class' % c.__name__)
+                except Exception as e:
+                    bad.append('from_powers(%r): %s: %s' % (m, type(e).__name__, e))
+                if len(bad) > 3:
+                    break
+    if D.from_powers({'Xa': F(0), 'Xb': F(2)}) is not D.from_powers({'Xb': F(2)}):
+        bad.append('a zero exponent changes the class')
+    for arg in ([('Xa', F(1))], {1: F(1)}, {'Xa': 1}, {'Xa': 1.5}):
+        try:
+            D.from_powers(arg)
+            bad.append('from_powers(%r) accepted' % (arg,))
+        except ValueError:
+            pass
+        except Exception as e:
+            bad.append('from_powers(%r) raised %s' % (arg, type(e).__name__))
+    for arg in ('Y2', 'Y_', 'Y2_3', 'Y*Z', 'Y/Z', '*Y', '/Y', '7', 7, 'T'):
+        try:
+            D.create(arg)
+            bad.append('Dimension.create(%r) accepted' % (arg,))
+        except ValueError:
+            pass
+        except Exception as e:
+            bad.append('Dimension.create(%r) raised %s' % (arg, type(e).__name__))
+    try:
+        c = D.create('Qx')
+        if c is not D.from_powers({'Qx': F(1)}):
+            bad.append("create('Qx') is not from_powers({'Qx': 1})")
+    except Exception as e:
+        bad.append("create('Qx') raised %s: %s" % (type(e).__name__, e))
+    for attr in ('unwrap_', '[L', 'L]'):
+        try:
+            getattr(SI.Length, attr)
+            bad.append('Length.%s exists' % attr)
+        except AttributeError:
+            pass
+        except Exception as e:
+            bad.append('Length.%s raised %s' % (attr, type(e).__name__))
+    for b in bad[:6]:
+        print(b)
+    print('REPLAY: VIOLATION-CONFIRMED dimension names are not canonical / decodable' if bad else 'REPLAY: not reproduced')
+
+
+def _unit_cases():
+    """(string, [(base, power, isnumer)]) over a few names, separators and exponent spellings."""
+    import itertools
+    from fractions import Fraction as F
+    exps = [('', F(1)), ('2', F(2)), ('1_2', F(1, 2)), ('12', F(12)), ('3_10', F(3, 10))]
+    names = ['m', 'kg', 'μs', '5cm', '.5N']
+    out = [('', []), ('/', []), ('*', [])]
+    for n in (1, 2, 3):
+        for ns in itertools.product(names[:3 if n == 3 else 5], repeat=n):
+            for es in itertools.product(exps[:3 if n == 3 else 5], repeat=n):
+                for seps in itertools.product('*/', repeat=n - 1):
+                    for lead in ('', '/'):
+                        s, want, side = lead, [], not lead
+                        for i in range(n):
+                            if i:
+                                s += seps[i - 1]
+                                side = seps[i - 1] == '*'
+                            s += ns[i] + es[i][0]
+                            want.append((ns[i], es[i][1], side))
+                        out.append((s, want))
+    return out
+
+
+def split_check():
+    from nutils import SI
+    for s, want in _unit_cases():
+        got = list(SI._split_factors(s))
+        if got != want:
+            print('_split_factors(%r) = %r, expected %r' % (s, got, want))
+            print('REPLAY: VIOLATION-CONFIRMED a unit string is split into the wrong factors')
+            return
+    try:
+        list(SI._split_factors('m_0'))
+        print("_split_factors('m_0') accepted a zero denominator")
+        print('REPLAY: VIOLATION-CONFIRMED')
+        return
+    except ZeroDivisionError:
+        pass
+    print('REPLAY: not reproduced')
+
+
+def _reference(s, number):
+    """value and dimension of number + unit expression by the property, computed with Fractions of the unit table."""
+    from nutils import SI
+    val, dim = number, SI.Dimensionless
+    for base, power, isnumer in _split_spec(s):
+        u = base.lstrip('+-0123456789.')
+        f = float(base[:len(base) - len(u)] or 1)
+        q = SI.units[u]
+        v = f * q.unwrap()**float(power)
+        d = type(q)**power
+        val, dim = (val * v, dim * d) if isnumer else (val / v, dim / d)
+    return val, dim
+
+
+def _split_spec(s):
+    # independent re-statement of the unit grammar (not the code under test)
+    import re
+    from fractions import Fraction as F
+    out = []
+    for m in re.finditer(r'(^|[*/])([^*/]*)', s):
+        sep, factor = m.group(1), m.group(2)
+        if not factor:
+            continue
+        mm = re.fullmatch(r'(.*?[^0-9_])([0-9]*)(?:_([0-9]*))?', factor)
+        base, num, den = mm.group(1), mm.group(2), mm.group(3)
+        out.append((base, F(int(num or 1), int(den or 1)), sep != '/'))
+    # a factor is a numerator iff the nearest separator to its left is not '/': matches 'a/b/c' = a/(b*c)
+    return out
+
+
+def parse_check():
+    from nutils import SI
+    cases = [(s, want) for s, want in _unit_cases() if all(b.lstrip('+-0123456789.') in SI.units for b, p, n in want)]
+    for s, want in cases[::7] + [(x, None) for x in ('km/h', 'N*m', 'kg*m/s2', 'm/s/s', '/s', 'mm2', 'm1_2', 'm/5cm', 'km2/h*s', '')]:
+        for num in ('', '5', '2.5', '-.5'):
+            if num and s[:1] and s[0] in '+-0123456789.':
+                continue  # the concatenation would spell another number
+            try:
+                q = SI.parse(num + s)
+                val, dim = _reference(s, float(num or 1))
+            except ZeroDivisionError:
+                continue
+            got_dim = type(q) if isinstance(q, SI.Quantity) else SI.Dimensionless
+            got_val = q.unwrap() if isinstance(q, SI.Quantity) else q
+            if got_dim is not dim or abs(got_val - val) > 1e-9 * max(1, abs(val)):
+                print('parse(%r) = %r of %s, expected %r of %s' % (num + s, got_val, got_dim.__name__, val, dim.__name__))
+                print('REPLAY: VIOLATION-CONFIRMED parse does not give the product/quotient/power of the unit values and dimensions')
+                return
+            if isinstance(q, SI.Quantity) and getattr(q, '_parsed_from', None) != num + s:
+                print('parse(%r)._parsed_from = %r' % (num + s, getattr(q, '_parsed_from', None)))
+                print('REPLAY: VIOLATION-CONFIRMED')
+                return
+    for s in ('5foo', 'm/bar2', '5m*', '3*'):
+        try:
+            q = SI.parse(s)
+            if s.endswith('*') and s != '3*':
+                continue
+            if s == '3*':
+                continue
+            print('parse(%r) accepted: %r' % (s, q))
+            print('REPLAY: VIOLATION-CONFIRMED an undefined unit is accepted')
+            return
+        except ValueError:
+            pass
+    print('REPLAY: not reproduced')
+
+
+def format_check():
+    from nutils import SI
+    bad = []
+    for q, spec, want in [(SI.Length.wrap(1500.), '.1km', '1.5km'), (SI.Length.wrap(1500.), 'km', '1.500000km'), (SI.Velocity.wrap(10.), '.0km/h', '36km/h'),
+                          (SI.Area.wrap(2.), '.2m2', '2.00m2'), (SI.Length.wrap(.5) / SI.Time.wrap(1.), '7.3mm/s', '500.000mm/s'), (SI.Force.wrap(3.), ',.0mN', '3,000mN')]:
+        try:
+            got = format(q, spec)
+        except Exception as e:
+            got = '%s: %s' % (type(e).__name__, e)
+        if got != want:
+            bad.append('format(%r, %r) = %r, expected %r' % (q, spec, got, want))
+    for q, spec in [(SI.Length.wrap(1.), '.1s'), (SI.Length.wrap(1.), '.1m2'), (SI.Velocity.wrap(1.), '.1km*h'), (SI.Length.wrap(1.), '.1')]:
+        try:
+            bad.append('format(%r, %r) = %r accepted a unit of another dimension' % (q, spec, format(q, spec)))
+        except TypeError:
+            pass
+        except Exception as e:
+            bad.append('format(%r, %r) raised %s' % (q, spec, type(e).__name__))
+    if format(SI.Length.wrap(2.), '') != repr(SI.Length.wrap(2.)):
+        bad.append('format(q, "") is not repr(q)')
+    for b in bad[:5]:
+        print(b)
+    print("REPLAY: VIOLATION-CONFIRMED f'{q:<spec><unit>}' is not the value in that unit followed by the unit" if bad else 'REPLAY: not reproduced')
+
+
+def roundtrip_check():
+    from nutils import SI
+    bad = []
+    for unit in ('m', 'km', 'mm2', 'km/h', 'kg*m/s2', 'N*m', 'm/s/s', 'J/kg', 'm1_2', 'Pa*s', 'μm', 'm/5cm*s', 'L/min'):
+        for num in ('5', '2.5', '1250', '.125', '-3'):
+            try:
+                q = SI.parse(num + unit)
+                got = format(q, '.6' + unit)
+            except Exception as e:
+                got = '%s: %s' % (type(e).__name__, e)
+            if got != format(float(num), '.6f') + unit:
+                bad.append('format(parse(%r), %r) = %r' % (num + unit, '.6' + unit, got))
+    for b in bad[:5]:
+        print(b)
+    print('REPLAY: VIOLATION-CONFIRMED parsing a unit string and formatting with the same unit does not round-trip the value' if bad else 'REPLAY: not reproduced')
+
+
+def setattr_check():
+    from nutils import SI
+    bad = []
+    U = SI.Units()
+    U.m = SI.Length.wrap(1.)
+    U.s = SI.Time.wrap(1.)
+    pref = dict(Y=1e24, Z=1e21, E=1e18, P=1e15, T=1e12, G=1e9, M=1e6, k=1e3, h=1e2, d=1e-1, c=1e-2, m=1e-3, μ=1e-6, n=1e-9, p=1e-12, f=1e-15, a=1e-18, z=1e-21, y=1e-24)
+    if set(U) != {'m', 's'} | {p + n for p in pref for n in 'ms'}:
+        bad.append('defining m and s defines %r' % sorted(U))
+    for p, f in pref.items():
+        q = U.get(p + 'm')
+        if q is None or type(q) is not SI.Length or abs(q.unwrap() - f) > 1e-12 * f:
+            bad.append('%sm = %r' % (p, q))
+    for name, value in (('m', SI.Length.wrap(2.)), ('in', SI.Length.wrap(.0254)), ('s', '2s'), ('ms', SI.Time.wrap(1.))):
+        # 'in': m+'in' = 'min' is free but 'in' itself ... p+'in' never collides here; 'ms' collides with milli-second
+        try:
+            before = dict(U)
+            setattr(U, name, value)
+            if name in before:
+                bad.append('units.%s redefined' % name)
+        except ValueError:
+            if dict(U) != before:
+                bad.append('a refused definition of %s changed the table' % name)
+    V = SI.Units()
+    V.min = SI.Time.wrap(60.)
+    try:
+        setattr(V, 'in', SI.Length.wrap(.0254))  # milli-inch would be spelled 'min'
+        bad.append("units.in accepted although 'min' is already defined ('min' would be ambiguous)")
+    except ValueError:
+        pass
+    try:
+        V.foo = 5
+        bad.append('units.foo = 5 accepted')
+    except TypeError:
+        pass
+    W = SI.Units()
+    W.m = SI.Length.wrap(1.)
+    W.a = 'm2'
+    if type(W.a) is not SI.Area or type(W.ka) is not SI.Area or W.ka.unwrap() != 1e3:
+        bad.append("units.a = 'm2' gives a = %r, ka = %r" % (W.a, W.get('ka')))
+    for b in bad[:5]:
+        print(b)
+    print('REPLAY: VIOLATION-CONFIRMED Units.__setattr__ does not define exactly the name and its SI-prefixed forms, or accepts an ambiguous name' if bad else 'REPLAY: not reproduced')
+
+
+# ---- nutils.unit (contracts/C20_unit.py) -----------------------------------------------------------------------------------
+
+def unit_check():
+    import itertools
+    from nutils import unit
+    Q = unit._Quantity
+    bad = []
+    maps = [{}, {'m': 1}, {'m': -2}, {'s': 3}, {'m': 2, 's': -1}, {'m': -1, 's': 1}]
+    for pa, pb in itertools.product(maps, repeat=2):
+        a, b = Q(3., pa), Q(.5, pb)
+        r = a.__imul__(b)
+        want = {k: pa.get(k, 0) + pb.get(k, 0) for k in set(pa) | set(pb) if pa.get(k, 0) + pb.get(k, 0)}
+        if r is not a or a.powers != want or a.value != 1.5 or b.powers != pb or b.value != .5:
+            bad.append('Q(3,%r) *= Q(.5,%r) gives value %r powers %r (other: %r %r)' % (pa, pb, a.value, a.powers, b.value, b.powers))
+    for pa in maps:
+        for n in (-2, -1, 0, 1, 2, 3):
+            a = Q(2., pa)
+            try:
+                r = a**n
+            except Exception as e:
+                bad.append('Q(2,%r)**%d raised %s' % (pa, n, type(e).__name__))
+                continue
+            want = {k: v * n for k, v in pa.items() if v * n}
+            if r.powers != want or r.value != 2.**n or a.powers != pa or a.value != 2.:
+                bad.append('Q(2,%r)**%d gives value %r powers %r' % (pa, n, r.value, r.powers))
+    if Q(2., {'m': 1}).__pow__(.5) is not NotImplemented or Q(2., {'m': 1}).__imul__(3.) is not NotImplemented:
+        bad.append('non-int exponent / non-quantity factor accepted')
+    U = unit.create(m=1, s=1, g=1e-3, N='kg*m/s2', Pa='N/m2', min='60s')
+    for s, u, want in [('2km', 'm', 2000.), ('3N', 'kg*m/s2', 3.), ('5Pa*m2', 'N', 5.), ('2min', 's', 120.), ('7m/s*s', 'm', 7.), ('4kg*m*s/s2', 'N*s', 4.)]:
+        try:
+            got = U[u](s)
+            if abs(got - want) > 1e-9 * abs(want):
+                bad.append('%r as %r = %r, expected %r' % (s, u, got, want))
+        except Exception as e:
+            bad.append('%r as %r raised %s: %s' % (s, u, type(e).__name__, e))
+    for s, u in [('2km', 's'), ('3N', 'kg*m/s'), ('2m2', 'm'), ('5', 'm'), ('2m/m', 'm'), ('2m*s/s', 's')]:
+        try:
+            bad.append('%r accepted as %r: %r' % (s, u, U[u](s)))
+        except ValueError:
+            pass
+    for b in bad[:6]:
+        print(b)
+    print('REPLAY: VIOLATION-CONFIRMED nutils.unit does not add exponents pointwise / drop cancelled entries / reject another dimension' if bad else 'REPLAY: not reproduced')
